@@ -162,8 +162,30 @@ func runAuthSet(k *kernel.K) {
 			case (c == 5 || c == 6) && num > lastSchedEff && !hasForcedPending:
 				nextAuth += 3
 				b.sched = &aChange{at: b, delay: uint(k.Choose(4, "delay")), auths: authSet(nextAuth, nextAuth+1, nextAuth+2)}
-				dg.Add(grandpaDigest(types.GrandpaScheduledChange{Auths: b.sched.auths, Delay: uint32(b.sched.delay)}))
-				what = fmt.Sprintf(" +scheduled(delay %d)", b.sched.delay)
+				// other GRANDPA items of the same header (signals the authority-set code does not act on)
+				// may sit before or after the change: every item is handed on exactly once
+				noise := func(where string) {
+					for i := k.Choose(3, "other-items-"+where); i > 0; i-- {
+						switch k.Choose(3, "other-item") {
+						case 0:
+							dg.Add(grandpaDigest(types.GrandpaOnDisabled{ID: uint64(k.Choose(3, "disabled-id"))}))
+						case 1:
+							dg.Add(grandpaDigest(types.GrandpaPause{Delay: uint32(k.Choose(3, "pause-delay"))}))
+						default:
+							dg.Add(grandpaDigest(types.GrandpaResume{Delay: uint32(k.Choose(3, "resume-delay"))}))
+						}
+						what += " +signal-" + where
+						k.Probe("other-grandpa-item-" + where + "-a-scheduled-change")
+					}
+				}
+				if k.Bool(1, 3, "other-items-in-header") {
+					noise("before")
+					dg.Add(grandpaDigest(types.GrandpaScheduledChange{Auths: b.sched.auths, Delay: uint32(b.sched.delay)}))
+					noise("after")
+				} else {
+					dg.Add(grandpaDigest(types.GrandpaScheduledChange{Auths: b.sched.auths, Delay: uint32(b.sched.delay)}))
+				}
+				what = fmt.Sprintf(" +scheduled(delay %d)", b.sched.delay) + what
 			case c == 4 && clearlyPending && !m.loose && k.Bool(1, 2, "second-forced-change-on-this-fork"):
 				// Substrate refuses a block that announces a forced change while another one is still pending
 				// on the same fork (MultiplePendingForcedAuthoritySetChanges): the node must refuse the digest
